@@ -4,6 +4,12 @@ stdin : {"seeds":[...], "styles": k, "files":[bundled .v archives]}  or {"replay
 A case = (abstract design, style): text of the independent writer (render_verilog.py) -> sdn.parse -> canonical structure equals
 what the text describes (modules, libraries, ports dir/width/base, one cable per declared or implied net, bit-level joins of every
 connection expression, black boxes, assigns, constants, parameters, attributes, top); Inv + self-containment.  Bundled .v: parse + Inv.
+Attributes: the styles write the attribute set of a module / instantiation / wire declaration as one (* *) group or cut into several
+groups in front of the same construct (all of them expected on the element, "Multiple sets of constraints can exist before constructs
+... combined into a single set"), optionally with an earlier group whose value for one name is overridden (last value expected,
+IEEE 1364-2001 2.8), and put groups in front of body port declarations (nothing expected of them but that they do not end up elsewhere).
+"alias_shapes" (off unless given in the payload; props/C06.py does not give it): exploration knob that applies
+render_verilog.alias_shapes, i.e. header aliases onto vector nets, which the support page documents as not supported.
 """
 import sys, json, os, random
 import rtcommon as R
